@@ -133,7 +133,14 @@ fn build_text(rng: &mut SplitMix, g: &Grammar) -> (String, Vec<(String, usize, u
         text.push_str(t);
         pieces.push((rule.clone(), a, text.len()));
         if i + 1 < k || rng.chance(1, 3) {
-            text.push_str(seps[rng.below(seps.len())]);
+            if !g.literals.is_empty() && rng.chance(1, 4) {
+                // a literal of the grammar (or a proper prefix of it) right behind the piece
+                let l = g.literals[rng.below(g.literals.len())];
+                let cut: Vec<usize> = l.char_indices().map(|(i, _)| i).skip(1).chain([l.len()]).collect();
+                text.push_str(&l[..cut[rng.below(cut.len())]]);
+            } else {
+                text.push_str(seps[rng.below(seps.len())]);
+            }
         }
     }
     (text, pieces)
@@ -157,6 +164,10 @@ fn fit_length(rng: &mut SplitMix, text: String, pieces: Vec<(String, usize, usiz
     (t, pieces)
 }
 
+fn is_seed_drawn(name: &str) -> bool {
+    name.len() == 3 && name.starts_with('g') && name[1..].bytes().all(|b| b.is_ascii_digit())
+}
+
 /// Draw a whole scenario from `seed`. Pure: the same seed gives the same scenario in every process.
 pub fn generate(seed: u64, grammars: &[Grammar]) -> Scenario {
     let mut rng = SplitMix(seed);
@@ -164,8 +175,12 @@ pub fn generate(seed: u64, grammars: &[Grammar]) -> Scenario {
     // swarm: a random subset of grammars, per-run operation weights, thread count, length
     let n_enabled = 1 + rng.below(3.min(ng));
     let mut enabled: Vec<usize> = Vec::new();
+    // grammars written for a purpose and the repository's own get two thirds of the picks, the seed-drawn ones a third
+    let drawn: Vec<usize> = (0..ng).filter(|i| is_seed_drawn(grammars[*i].name)).collect();
+    let written: Vec<usize> = (0..ng).filter(|i| !is_seed_drawn(grammars[*i].name)).collect();
     while enabled.len() < n_enabled {
-        let g = rng.below(ng);
+        let pool = if written.is_empty() || (!drawn.is_empty() && rng.chance(1, 3)) { &drawn } else { &written };
+        let g = pool[rng.below(pool.len())];
         if !enabled.contains(&g) {
             enabled.push(g);
         }
